@@ -1409,6 +1409,8 @@ class Interp:
             ln, rn = l.tag[1], r.tag[1]
             if "." in ln and "." in rn and ln.rsplit(".", 1)[0] == rn.rsplit(".", 1)[0] and ln.rsplit(".", 1)[0][:1].isupper():
                 return ln == rn  # members of one enumeration class
+        if isinstance(l, Sym) and isinstance(r, Sym) and l.tag and r.tag and l.tag[0] == "object" and r.tag[0] == "object":
+            return l.tag == r.tag
         if isinstance(l, Sym) and isinstance(r, Sym) and l.tag and r.tag and l.tag[0] == "clsattr" and r.tag[0] == "clsattr" \
                 and l.tag[1] == r.tag[1] and l.tag[2].isupper() and r.tag[2].isupper():
             return l.tag[2] == r.tag[2]  # members of one enumeration class
@@ -1430,6 +1432,8 @@ class Interp:
         return None
 
     def equal(self, l, r):
+        if isinstance(l, Sym) and isinstance(r, Sym) and l.tag and r.tag and l.tag[0] == "object" and r.tag[0] == "object":
+            return l.tag == r.tag  # distinct opaque objects of a scenario
         if isinstance(l, Const) and isinstance(r, Const):
             try:
                 return l.v == r.v
@@ -1707,6 +1711,9 @@ class Interp:
                 return [(cfg, Const({"ord": ord, "chr": chr, "abs": abs, "int": int, "float": float, "repr": repr}[fname](args[0].v)))]
             except Exception:  # noqa
                 return None
+        if fname in ("os.path.dirname", "os.path.basename", "os.path.join") and args and all(isinstance(a, Const) and isinstance(a.v, str) for a in args):
+            import os.path as _osp
+            return [(cfg, Const(getattr(_osp, fname.split(".")[-1])(*[a.v for a in args])))]
         if fname in ("copy.copy", "copy.deepcopy") and len(args) == 1:
             v = args[0]
             if isinstance(v, NodeV):
